@@ -434,12 +434,14 @@ class C11(core.Check):
             return []
         text, B, mode = text_of(case)
         L = len(text)
-        names = {1: "calc_width", 2: "calc_text_pos", 5: "is_wide_char", 7: "calc_trim_text", 8: "decode_one"}
+        # calc_trim_text is not included: with an end offset inside a character the scan legitimately
+        # overshoots it and the second search raises ValueError (start > end); outside the property
+        names = {1: "calc_width", 2: "calc_text_pos", 5: "is_wide_char", 8: "decode_one"}
         for q, r in zip(queries(case, text, B, mode), res["r"]):
             f, a, b, c, d = q
             if not r[0]:
                 continue
-            if (f in (1, 2, 7) and 0 <= a <= b <= L) or (f in (5, 8) and 0 <= a < L):
+            if (f in (1, 2) and 0 <= a <= b <= L) or (f in (5, 8) and 0 <= a < L):
                 return [f"{names[f]}{tuple(q[1:])} on the bytes {list(text)} raised error {r[0]}"]
         return []
 
